@@ -431,7 +431,14 @@ class Response(_SansIOResponse):
         """
         # Always freeze the encoded response body, ignore
         # implicit_sequence_conversion and direct_passthrough.
+        close = getattr(self.response, "close", None)
         self.response = list(self.iter_encoded())
+
+        if close is not None:
+            # The iterable was consumed and is no longer referenced, so
+            # nothing else will close it.
+            close()
+
         self.headers["Content-Length"] = str(sum(map(len, self.response)))
         self.add_etag()
 
